@@ -164,6 +164,41 @@ def check(ctx):
         elif (rc != 0) != any(base[f][2] != 0 for f in fl) or (bool(err) != bool(werr)):
             ctx.fail('context-dependence', {'config': name}, 'exit status / stderr differ from the single-file runs: rc=%d stderr=%r' % (rc, err[-300:]))
         ctx.nontriv(('cfg', name))
+    # ---- packages: the temporary directory they are unpacked into must not show in the output
+    if shutil.which('dpkg-deb'):
+        from harness import c17
+        root = os.path.join(d, 'pkgroot')
+        tree = os.path.join(root, 'tree')
+        os.makedirs(os.path.join(tree, 'DEBIAN'))
+        os.makedirs(os.path.join(tree, 'usr/share/po'))
+        with open(os.path.join(tree, 'DEBIAN', 'control'), 'w') as f:
+            f.write('Package: verif-test0\nVersion: 1.0\nArchitecture: all\nMaintainer: X <x@example.org>\nDescription: test\n')
+        members = {'ok.po': open(os.path.join(d, 'brace-types.po'), 'rb').read(),
+                   'syntax.po': b'msgid ""\nmsgstr ""\n"Content-Type: text/plain; charset=UTF-8\\n"\n\nmsgid "a"\nfoo bar\n',
+                   'quote.po': b'msgid ""\nmsgstr ""\n"Content-Type: text/plain; charset=UTF-8\\n"\n\nmsgid "a"b"\nmsgstr ""\n',
+                   'enc.po': b'msgid ""\nmsgstr ""\n"Content-Type: text/plain; charset=UTF-8\\n"\n\nmsgid "a"\nmsgstr "\xff"\n',
+                   'bad.mo': b'\xde\x12\x04\x95\x00\x00\x00\x00\x05\x00\x00\x00junk'}
+        for name, data in members.items():
+            with open(os.path.join(tree, 'usr/share/po', name), 'wb') as f:
+                f.write(data)
+        pkgs = []
+        if subprocess.run(['dpkg-deb', '--root-owner-group', '-b', tree, os.path.join(root, 'p.deb')], stdout=subprocess.PIPE, stderr=subprocess.PIPE).returncode == 0:
+            pkgs.append('p.deb')
+        if shutil.which('dpkg-source'):
+            pkgs.append(os.path.basename(c17._write_dsc(root, tree, 0)))
+        for pkg in pkgs:
+            outs = []
+            for k, (seed, opts) in enumerate([(0, []), (1, []), ('random', ['-j', '3'])]):
+                tmp = os.path.join(root, 'tmp%d%s' % (k, 'x' * k))
+                os.makedirs(tmp, exist_ok=True)
+                outs.append(run_cli(['--unpack-deb'] + opts + [pkg], seed, root, {'TMPDIR': tmp}))
+                ctx.evaluations += 1
+                ctx.count('package-run')
+            if not (sorted(outs[0][0].split('\n')) == sorted(outs[1][0].split('\n')) == sorted(outs[2][0].split('\n'))) or len({o[2] for o in outs}) != 1:
+                ctx.fail('context-dependence', {'config': '--unpack-deb ' + pkg, 'members': sorted(members)},
+                         'the diagnostics of a package differ between runs with different TMPDIR / hash seed / -j: %r' % (first_diff(outs[0][0], outs[1][0]) or first_diff(outs[0][0], outs[2][0]),))
+            else:
+                ctx.nontriv(('pkg', pkg))
     ctx.samples = [{'config': c[0], 'nfiles': (len(c[1]) if c[1] else len(files))} for c in configs[:10]]
     ctx.stats['files'] = len(files)
     shutil.rmtree(d, ignore_errors=True)
@@ -172,7 +207,7 @@ def check(ctx):
         checker_cmd='tools/build.sh (coqc on Props/C03.v incl. vm_compute over the regenerated set-iteration sites) then coqc Audit_C03.v',
         rule='files = the repository\'s black-box PO/POT/MO files (every 3rd in quick) + catalogs exercising set/dict iteration + generated hostile catalogs; baseline = each file alone '
              '(-j1, PYTHONHASHSEED=0); configurations: all files under PYTHONHASHSEED in {0,1,2,3,random}; -j in {2,3,16}; random permutations and prefixes with -j 1/4; '
-             'repeated files (also under -j 2/4: a b a, a a b b a); probe file after other files (history); -l pl under different seeds and -j. Each run must equal the concatenation of the baselines. '
+             'packages (.deb/.dsc with rejected members) unpacked under different TMPDIR / seeds / -j; repeated files (also under -j 2/4: a b a, a a b b a); probe file after other files (history); -l pl under different seeds and -j. Each run must equal the concatenation of the baselines. '
              'non-trivial = a configuration run, or a file whose baseline output is non-empty',
         explanation='Model-level theorems (parallel = sequential for every completion order; multi-file = concatenation; no order-sensitive set iteration in the regenerated ast table) '
                     'plus exploration of hash seeds, argument orders, prefixes/histories and job counts through the real CLI. Partial: real worker scheduling and process state are explored, not modelled.')
